@@ -39,6 +39,57 @@ constexpr auto NiFloatInf = std::numeric_limits<float>::infinity();
 constexpr auto NiVec3Min = Vector3(NiFloatMin, NiFloatMin, NiFloatMin);
 constexpr auto NiVec4Min = Vector4(NiFloatMin, NiFloatMin, NiFloatMin, NiFloatMin);
 
+#ifdef NIFLY_VERIF
+// Verification hooks (compiled only with -DNIFLY_VERIF). With nothing installed
+// (verif::hooks == nullptr) the hooked code behaves exactly like the unhooked code.
+class NiRef;
+class NiStringRef;
+namespace verif {
+	enum class Hint : uint8_t { Raw, Bool, Enum, Integral, Float, Half, Pod, BlockRef, StringIndex };
+
+	struct Hooks {
+		// H1: when set, NiIStream reads are answered by these instead of the std::istream
+		void (*read)(void* ctx, char* dst, std::streamsize count, Hint hint, std::size_t elemSize) = nullptr;
+		void (*getline)(void* ctx, char* dst, std::streamsize maxCount) = nullptr;
+		void (*getstring)(void* ctx, std::string& str) = nullptr;
+		// H3/H4 observers: called for every block reference / string reference that is synced.
+		// writeOffset is the offset inside the current block when writing, -1 when reading.
+		void (*onBlockRef)(void* ctx, NiRef* ref, bool writing, std::streamsize writeOffset) = nullptr;
+		void (*onStringRef)(void* ctx, NiStringRef* ref, bool writing, std::streamsize writeOffset) = nullptr;
+		void* ctx = nullptr;
+		// H2: hint for the next read
+		Hint nextHint = Hint::Raw;
+		std::size_t nextElemSize = 0;
+	};
+
+	inline thread_local Hooks* hooks = nullptr;
+
+	template<typename T>
+	inline void SetHintFor() {
+		if (!hooks)
+			return;
+		hooks->nextElemSize = sizeof(T);
+		if (std::is_same<T, bool>::value)
+			hooks->nextHint = Hint::Bool;
+		else if (std::is_enum<T>::value)
+			hooks->nextHint = Hint::Enum;
+		else if (std::is_integral<T>::value)
+			hooks->nextHint = Hint::Integral;
+		else if (std::is_floating_point<T>::value)
+			hooks->nextHint = Hint::Float;
+		else
+			hooks->nextHint = Hint::Pod;
+	}
+
+	inline void SetHint(Hint h, std::size_t elemSize) {
+		if (!hooks)
+			return;
+		hooks->nextHint = h;
+		hooks->nextElemSize = elemSize;
+	}
+} // namespace verif
+#endif
+
 enum NiFileVersion : uint32_t {
 	V2_3 = 0x02030000,
 	V3_0 = 0x03000000,
@@ -222,13 +273,46 @@ public:
 		: NiStreamBase(hdr)
 		, stream(s) {}
 
+#ifdef NIFLY_VERIF
+	void read(char* ptr, std::streamsize count) {
+		if (verif::hooks && verif::hooks->read) {
+			verif::Hint h = verif::hooks->nextHint;
+			std::size_t es = verif::hooks->nextElemSize;
+			verif::hooks->nextHint = verif::Hint::Raw;
+			verif::hooks->nextElemSize = 0;
+			verif::hooks->read(verif::hooks->ctx, ptr, count, h, es);
+			return;
+		}
+		if (verif::hooks)
+			verif::hooks->nextHint = verif::Hint::Raw;
+		stream->read(ptr, count);
+	}
+	void getline(char* ptr, std::streamsize maxCount) {
+		if (verif::hooks && verif::hooks->getline) {
+			verif::hooks->getline(verif::hooks->ctx, ptr, maxCount);
+			return;
+		}
+		stream->getline(ptr, maxCount);
+	}
+	void getstring(std::string& str) {
+		if (verif::hooks && verif::hooks->getstring) {
+			verif::hooks->getstring(verif::hooks->ctx, str);
+			return;
+		}
+		std::getline(*stream, str, '\0');
+	}
+#else
 	void read(char* ptr, std::streamsize count) { stream->read(ptr, count); }
 	void getline(char* ptr, std::streamsize maxCount) { stream->getline(ptr, maxCount); }
 	void getstring(std::string& str) { std::getline(*stream, str, '\0'); }
+#endif
 
 	// Be careful with sizes of structs and classes
 	template<typename T>
 	NiIStream& operator>>(T& t) {
+#ifdef NIFLY_VERIF
+		verif::SetHintFor<T>();
+#endif
 		read((char*) &t, sizeof(T));
 		return *this;
 	}
@@ -289,6 +373,10 @@ public:
 
 	template<typename T>
 	void Sync(T& t) {
+#ifdef NIFLY_VERIF
+		if (mode == Mode::Reading)
+			verif::SetHintFor<T>();
+#endif
 		Sync(reinterpret_cast<char*>(&t), sizeof(T));
 	}
 
@@ -347,6 +435,10 @@ public:
 		if (mode == Mode::Writing)
 			halfData = fl;
 
+#ifdef NIFLY_VERIF
+		if (mode == Mode::Reading)
+			verif::SetHint(verif::Hint::Half, 2);
+#endif
 		Sync(reinterpret_cast<char*>(&halfData), 2);
 
 		if (mode == Mode::Reading)
